@@ -226,21 +226,53 @@ CONSUMER_CARRIERS = {
 _CONSUMER_SKIP = {"modify", "modify-in-if", "modify-in-loop", "local-shadow", "self-assign", "self-assign-in-if", "selfcall-arg"}
 
 
+def _snapshots():
+    """a number / bool read out of a container is a VALUE: changing the container afterwards must not change what was read"""
+    A = lambda n, e, t=None: ("assign", n, e, t, ())
+    le_zi, ob_f, ob_g = ("index", _V("le"), _V("zi")), ("field", _V("ob"), "f"), ("field", _V("ob"), "g")
+    setle = ("setindex", _V("le"), _V("zi"), _I(9))
+    setf = ("setfield", _V("ob"), "f", _I(9))
+    setg = ("setfield", _V("ob"), "g", ("bool", False))
+    ret_t = ("return", _V("t"))
+    idf = ("fn", [("q", "int")], "int", [("return", _V("q"))])
+    return {
+        "snap-element-assign": [A("t", le_zi), setle, ret_t],
+        "snap-element-typed-assign": [A("t", le_zi, "int"), setle, ret_t],
+        "snap-field-assign": [A("t", ob_f), setf, ret_t],
+        "snap-bool-field-assign": [A("tb", ob_g), setg, ("if", _V("tb"), [("return", _I(1))], None), ("return", _I(0))],
+        "snap-element-in-list": [A("l2", ("list", [le_zi, _I(0)]), "[int...]"), setle, ("return", ("index", _V("l2"), _I(0)))],
+        "snap-element-pushed": [A("l2", ("list", []), "[int...]"), ("expr", ("method", _V("l2"), "push", [le_zi])), setle, ("return", ("index", _V("l2"), _I(0)))],
+        "snap-field-pushed": [A("l2", ("list", []), "[int...]"), ("expr", ("method", _V("l2"), "push", [ob_f])), setf, ("return", ("index", _V("l2"), _I(0)))],
+        "snap-element-through-fn": [A("idf", idf), A("t", ("call", _V("idf"), [le_zi])), setle, ret_t],
+        "snap-field-into-field": [A("o2", ("new", "Ob", [])), ("setfield", _V("o2"), "f", ob_f), setf, ("return", ("field", _V("o2"), "f"))],
+        "snap-element-into-element": [A("l2", ("list", [_I(0), _I(0)]), "[int...]"), ("setindex", _V("l2"), _I(0), le_zi), setle, ("return", ("index", _V("l2"), _I(0)))],
+        "snap-element-opassign": [A("t", _I(0)), ("opassign", _V("t"), "+=", le_zi), setle, ret_t],
+        "snap-element-arith": [A("t", ("bin", "+", le_zi, _I(0))), setle, ret_t],
+        "snap-element-map-value": [A("m", ("maplit", "str", "int", [(("str", "k"), le_zi)])), setle, ("return", ("get", ("index", _V("m"), ("str", "k"))))],
+        "snap-element-optional": [A("oq", le_zi, "int?"), setle, ("return", ("get", _V("oq")))],
+        "snap-element-or": [A("t", ("or", _V("on"), le_zi)), setle, ret_t],
+        "snap-field-self-update": [("setfield", _V("ob"), "f", ("bin", "+", ob_f, ob_f)), ("return", ob_f)],
+        "snap-element-self-update": [("setindex", _V("le"), _V("zi"), ("bin", "*", le_zi, le_zi)), ("return", le_zi)],
+        "snap-swap-elements": [A("t", ("index", _V("le"), _I(0))), ("setindex", _V("le"), _I(0), le_zi), ("setindex", _V("le"), _V("zi"), _V("t")),
+                               ("return", ("bin", "-", ("index", _V("le"), _I(0)), le_zi))],
+    }
+
+
 def consumer_sites():
     from . import c07
-    return [k for k in c07.site_bodies() if k not in _CONSUMER_SKIP]
+    return [k for k in c07.site_bodies() if k not in _CONSUMER_SKIP] + list(_snapshots())
 
 
 def consumer_program(site, carrier, host):
     from . import c07
     ci, cb = CONSUMER_CARRIERS[carrier]
-    body = c07.site_bodies(cv=ci, cb=cb)[site]
+    body = _snapshots()[site] if site.startswith("snap-") else c07.site_bodies(cv=ci, cb=cb)[site]
     A = lambda n, e, t=None: ("assign", n, e, t, ())
     pre = [("class", "Ob", [("f", "int"), ("g", "bool")], ([], [("setfield", _V("self"), "f", _I(2)), ("setfield", _V("self"), "g", ("bool", True))]), []),
            A("le", ("list", [_I(7), _I(2)]), "[int...]"), A("lb", ("list", [("bool", False), ("bool", True)]), "[bool...]"), A("zi", _I(1)),
            A("ob", ("new", "Ob", [])), A("ln", ("list", [("list", [_I(7), _I(2)])]), "[[int...]...]"),
            A("lnb", ("list", [("list", [("bool", False), ("bool", True)])]), "[[bool...]...]"),
-           A("oi", _I(2), "int?"), A("obl", ("bool", True), "bool?"), A("pv", _I(2)), A("pb", ("bool", True)),
+           A("oi", _I(2), "int?"), A("obl", ("bool", True), "bool?"), A("on", ("nil",), "int?"), A("pv", _I(2)), A("pb", ("bool", True)),
            A("lc", ("list", [_I(1), _I(7)]), "[int...]"), A("cs", ("str", "ab")),
            A("cf", ("fn", [("q", "int")], "int", [("return", ("bin", "+", _V("q"), _I(1)))]))]
     obs = [("print", _V("le")), ("print", _V("lb")), ("print", ("field", _V("ob"), "f")), ("print", ("field", _V("ob"), "g")), ("print", _V("ln")), ("print", _V("lnb")),
@@ -301,7 +333,8 @@ class C02(Check):
               ("Lb3-re-assignment-from-a-nested-block-of-a-function", [c + ("@fnblk",) for c in b if c[1] == "reassign"]),
               ("Lc-return-paths-depth1", c1),
               ("Le-depth2-operator-trees-typeof-vs-kind" + ("-every-11th" if tier == "quick" else ""), tr[::11] if tier == "quick" else tr)]
-        ls.append(("Lx-consumer-positions-x-carriers", [("cons", st, car, host) for st in consumer_sites() for car in CONSUMER_CARRIERS for host in ("closure", "fn")]))
+        ls.append(("Lx-consumer-positions-x-carriers", [("cons", st, car, host) for st in consumer_sites() for car in (CONSUMER_CARRIERS if not st.startswith("snap-") else ["variable"])
+                                                              for host in ("closure", "fn")]))
         c2 = [("ret2", i) for i, s in enumerate(skeletons(2)) if count_conds(s) <= 4]
         if tier == "quick":
             c2 = c2[::9]
